@@ -56,15 +56,52 @@ func src(n ast.Node) string {
 }
 
 type tr struct {
-	spec *Spec
-	it   *Item
+	spec    *Spec
+	it      *Item
+	subst   map[string]string // Go source text -> Lean text (item's subst, or a helper's parameters while it is inlined)
+	allowed map[string]bool   // identifiers that may appear free (the generated definition's binders)
+	pkg     []*ast.File       // all files of the package, for inlining of pure helper functions
+	depth   int
+}
+
+// binderNames extracts the names bound by a Lean binder list such as "(need total : Int) (info : Info)".
+func binderNames(params string) map[string]bool {
+	res := map[string]bool{}
+	for _, grp := range strings.Split(params, "(") {
+		grp = strings.TrimSpace(grp)
+		if i := strings.Index(grp, ":"); i >= 0 {
+			for _, n := range strings.Fields(grp[:i]) {
+				res[n] = true
+			}
+		}
+	}
+	return res
+}
+
+// pureHelper finds a package-level function (no receiver, one result) of the package by name.
+func (t *tr) pureHelper(name string) *ast.FuncDecl {
+	for _, f := range t.pkg {
+		for _, d := range f.Decls {
+			if fd, ok := d.(*ast.FuncDecl); ok && fd.Recv == nil && fd.Name.Name == name && fd.Body != nil &&
+				fd.Type.Results != nil && len(fd.Type.Results.List) == 1 && len(fd.Type.Results.List[0].Names) == 0 {
+				return fd
+			}
+		}
+	}
+	return nil
 }
 
 func (t *tr) expr(e ast.Expr) (string, error) {
-	if s, ok := t.it.Subst[src(e)]; ok {
+	if s, ok := t.subst[src(e)]; ok {
 		return s, nil
 	}
 	switch x := e.(type) {
+	case *ast.IndexExpr:
+		// "*[i]" in the subst table: any slice indexed by i (the slice may have been renamed)
+		if s, ok := t.subst["*["+src(x.Index)+"]"]; ok {
+			return s, nil
+		}
+		return "", fmt.Errorf("unsupported index expression %s", src(e))
 	case *ast.ParenExpr:
 		s, err := t.expr(x.X)
 		return "(" + s + ")", err
@@ -96,6 +133,8 @@ func (t *tr) expr(e ast.Expr) (string, error) {
 			return "", err
 		}
 		switch x.Op {
+		case token.AND: // &x read through the pointer only: the value itself
+			return s, nil
 		case token.NOT:
 			return "!(" + s + ")", nil
 		case token.SUB:
@@ -112,7 +151,15 @@ func (t *tr) expr(e ast.Expr) (string, error) {
 			return "", fmt.Errorf("unknown field %s in %s", x.Sel.Name, src(e))
 		}
 		return base + "." + f, nil
+	case *ast.StarExpr:
+		return t.expr(x.X)
 	case *ast.Ident:
+		if x.Name == "true" || x.Name == "false" {
+			return x.Name, nil
+		}
+		if t.allowed != nil && !t.allowed[x.Name] {
+			return "", fmt.Errorf("free identifier %s", x.Name)
+		}
 		return x.Name, nil
 	case *ast.BasicLit:
 		if x.Kind == token.INT {
@@ -125,6 +172,34 @@ func (t *tr) expr(e ast.Expr) (string, error) {
 	case *ast.CallExpr:
 		fn, ok := t.spec.Calls[src(x.Fun)]
 		if !ok {
+			// a pure helper of the same package (single result, if/return chain) is inlined
+			if id, isID := x.Fun.(*ast.Ident); isID && t.depth < 4 {
+				if fd := t.pureHelper(id.Name); fd != nil {
+					sub := &tr{spec: t.spec, it: t.it, subst: map[string]string{}, allowed: map[string]bool{}, pkg: t.pkg, depth: t.depth + 1}
+					var names []string
+					for _, fl := range fd.Type.Params.List {
+						for _, n := range fl.Names {
+							names = append(names, n.Name)
+						}
+					}
+					if len(names) == len(x.Args) {
+						bad := false
+						for i, a := range x.Args {
+							as, err := t.expr(a)
+							if err != nil {
+								bad = true
+								break
+							}
+							sub.subst[names[i]] = "(" + as + ")"
+						}
+						if !bad {
+							if s, err := sub.body(fd.Body.List); err == nil {
+								return "(" + s + ")", nil
+							}
+						}
+					}
+				}
+			}
 			return "", fmt.Errorf("unsupported call %s", src(x.Fun))
 		}
 		parts := []string{fn}
@@ -146,6 +221,33 @@ func (t *tr) body(stmts []ast.Stmt) (string, error) {
 		return "", fmt.Errorf("empty body")
 	}
 	switch s := stmts[0].(type) {
+	case *ast.AssignStmt:
+		// `a, b := &xs[i], &xs[j]` / `d := need - info.Count`: a local alias of a translatable expression
+		if s.Tok != token.DEFINE || len(s.Lhs) != len(s.Rhs) {
+			return "", fmt.Errorf("unsupported statement %T: %s", stmts[0], src(stmts[0]))
+		}
+		saved := map[string]string{}
+		for k, v := range t.subst {
+			saved[k] = v
+		}
+		defer func() { t.subst = saved }()
+		ns := map[string]string{}
+		for k, v := range t.subst {
+			ns[k] = v
+		}
+		for i, l := range s.Lhs {
+			id, ok := l.(*ast.Ident)
+			if !ok {
+				return "", fmt.Errorf("unsupported assignment %s", src(s))
+			}
+			r, err := t.expr(s.Rhs[i])
+			if err != nil {
+				return "", err
+			}
+			ns[id.Name] = "(" + r + ")"
+		}
+		t.subst = ns
+		return t.body(stmts[1:])
 	case *ast.ReturnStmt:
 		if len(s.Results) != 1 {
 			return "", fmt.Errorf("return with %d results", len(s.Results))
@@ -179,6 +281,29 @@ func (t *tr) body(stmts []ast.Stmt) (string, error) {
 		return "if " + c + " then " + th + " else " + el, nil
 	}
 	return "", fmt.Errorf("unsupported statement %T: %s", stmts[0], src(stmts[0]))
+}
+
+var pkgCache = map[string][]*ast.File{}
+
+// pkgFiles parses every non-test file of the directory of file (cached).
+func pkgFiles(repo, file string) []*ast.File {
+	dir := filepath.Dir(filepath.Join(repo, file))
+	if fs, ok := pkgCache[dir]; ok {
+		return fs
+	}
+	var res []*ast.File
+	ents, _ := os.ReadDir(dir)
+	for _, e := range ents {
+		n := e.Name()
+		if e.IsDir() || !strings.HasSuffix(n, ".go") || strings.HasSuffix(n, "_test.go") {
+			continue
+		}
+		if f, err := parser.ParseFile(fset, filepath.Join(dir, n), nil, 0); err == nil {
+			res = append(res, f)
+		}
+	}
+	pkgCache[dir] = res
+	return res
 }
 
 func findFunc(f *ast.File, name string) *ast.FuncDecl {
@@ -231,11 +356,14 @@ func main() {
 		if f == nil {
 			f, err = parser.ParseFile(fset, filepath.Join(*repo, it.File), nil, 0)
 			if err != nil {
-				fail(err)
+				structural(err)
 			}
 			files[it.File] = f
 		}
-		t := &tr{spec: &spec, it: it}
+		t := &tr{spec: &spec, it: it, subst: it.Subst, allowed: binderNames(it.Params), pkg: pkgFiles(*repo, it.File)}
+		if t.subst == nil {
+			t.subst = map[string]string{}
+		}
 		var rhs, origin string
 		switch it.Kind {
 		case "mapkeys":
@@ -255,6 +383,9 @@ func main() {
 				}
 				return false
 			})
+			if len(keys) == 0 {
+				structural(fmt.Errorf("%s: map literal %s not found", it.File, it.Var))
+			}
 			sort.Strings(keys)
 			var qs []string
 			for _, k := range keys {
@@ -266,73 +397,16 @@ func main() {
 			rhs = strconv.Quote(constString(f, ast.NewIdent(it.Var)))
 			origin = "constant " + it.Var
 		default:
-			fd := findFunc(f, it.Func)
-			if fd == nil {
-				fail(fmt.Errorf("%s: function %s not found", it.File, it.Func))
-			}
-			switch it.Kind {
-			case "func":
-				rhs, err = t.body(fd.Body.List)
-				origin = "body of " + it.Func
-			case "ifcond", "funclit", "forcond":
-				n := 0
-				var found ast.Node
-				ast.Inspect(fd.Body, func(nd ast.Node) bool {
-					if found != nil {
-						return false
-					}
-					switch x := nd.(type) {
-					case *ast.IfStmt:
-						if it.Kind == "ifcond" {
-							if n == it.Index {
-								found = x
-							}
-							n++
-						}
-					case *ast.FuncLit:
-						if it.Kind == "funclit" {
-							if n == it.Index {
-								found = x
-							}
-							n++
-						}
-					case *ast.ForStmt:
-						if it.Kind == "forcond" {
-							if n == it.Index {
-								found = x
-							}
-							n++
-						}
-					}
-					return true
-				})
-				if found == nil {
-					fail(fmt.Errorf("%s: %s #%d not found in %s", it.File, it.Kind, it.Index, it.Func))
-				}
-				switch x := found.(type) {
-				case *ast.IfStmt:
-					rhs, err = t.expr(x.Cond)
-					origin = fmt.Sprintf("condition of if #%d in %s: %s", it.Index, it.Func, src(x.Cond))
-				case *ast.ForStmt:
-					rhs, err = t.expr(x.Cond)
-					origin = fmt.Sprintf("condition of for #%d in %s: %s", it.Index, it.Func, src(x.Cond))
-				case *ast.FuncLit:
-					rhs, err = t.body(x.Body.List)
-					origin = fmt.Sprintf("function literal #%d in %s", it.Index, it.Func)
-				}
-			default:
-				fail(fmt.Errorf("unknown kind %s", it.Kind))
-			}
+			cands, err := t.candidates(f)
 			if err != nil {
-				fail(fmt.Errorf("%s %s: %v", it.File, it.Func, err))
+				structural(fmt.Errorf("%s %s: %v", it.File, it.Func, err))
 			}
+			emitCandidates(&out, it, cands)
+			continue
 		}
 		fmt.Fprintf(&out, "\n/-- %s (%s) -/\ndef %s %s : %s := %s\n", strings.ReplaceAll(origin, "-/", "- /"), it.File, it.Lean, it.Params, it.Ret, rhs)
 		if it.Eq != "" {
-			// `rfl` when the Go expression has the surface form the model records; otherwise the two are
-			// proved extensionally equal (linear integer arithmetic + propositional structure), so a
-			// semantically equivalent rewrite of the Go expression keeps the tie and any other breaks it.
-			fmt.Fprintf(&out, "theorem %s_eq : @%s = @%s := by\n  first\n  | rfl\n  | (repeat (apply funext; intro)); simp only [%s, %s]; grind\n", it.Lean, it.Lean, it.Eq, it.Lean, it.Eq)
+			fmt.Fprintf(&out, "theorem %s_eq : @%s = @%s := by\n  %s\n", it.Lean, it.Lean, it.Eq, tieTactic(it.Lean, it.Eq))
 		}
 	}
 	out.WriteString("\nend " + spec.Namespace + "\n")
@@ -342,6 +416,184 @@ func main() {
 	if err := os.WriteFile(dst, []byte(out.String()), 0o644); err != nil {
 		fail(err)
 	}
+}
+
+type cand struct{ rhs, origin string }
+
+// tieTactic closes `@gen = @model`: `rfl` when the Go expression has the surface form the model records; otherwise the
+// two are proved extensionally equal (linear integer arithmetic + propositional structure), so a semantically
+// equivalent rewrite of the Go expression keeps the tie and any other breaks it.
+func tieTactic(gen, model string) string {
+	return fmt.Sprintf("first | rfl | ((repeat (apply funext; intro)); simp only [%s, %s]; grind)", gen, model)
+}
+
+// candidates returns the translations the item may refer to. For `func` it is the body of the named function. For
+// `ifcond` / `forcond` / `funclit` it is the indexed occurrence inside the named function first, followed by every
+// other occurrence in that function and then in the rest of the file that translates with the item's binders only
+// (so that moving a condition into an extracted helper, or inserting another `if` before it, does not lose the tie).
+func (t *tr) candidates(f *ast.File) ([]cand, error) {
+	it := t.it
+	fd := findFunc(f, it.Func)
+	if it.Kind == "func" {
+		if fd == nil {
+			return nil, fmt.Errorf("function %s not found", it.Func)
+		}
+		rhs, err := t.body(fd.Body.List)
+		if err != nil {
+			return nil, err
+		}
+		return []cand{{rhs, "body of " + it.Func}}, nil
+	}
+	if it.Kind != "ifcond" && it.Kind != "funclit" && it.Kind != "forcond" {
+		return nil, fmt.Errorf("unknown kind %s", it.Kind)
+	}
+	type occ struct {
+		c     cand
+		index bool
+	}
+	var occs []occ
+	scan := func(d *ast.FuncDecl, named bool) {
+		if d.Body == nil {
+			return
+		}
+		n := 0
+		name := d.Name.Name
+		if named {
+			name = it.Func
+		}
+		ast.Inspect(d.Body, func(nd ast.Node) bool {
+			var rhs, origin string
+			var err error
+			hit := false
+			switch x := nd.(type) {
+			case *ast.IfStmt:
+				if it.Kind == "ifcond" {
+					hit = true
+					rhs, err = t.expr(x.Cond)
+					origin = fmt.Sprintf("condition of if #%d in %s: %s", n, name, src(x.Cond))
+				}
+			case *ast.ForStmt:
+				if it.Kind == "forcond" {
+					hit = true
+					if x.Cond == nil {
+						err = fmt.Errorf("no condition")
+					} else {
+						rhs, err = t.expr(x.Cond)
+						origin = fmt.Sprintf("condition of for #%d in %s: %s", n, name, src(x.Cond))
+					}
+				}
+			case *ast.FuncLit:
+				if it.Kind == "funclit" {
+					hit = true
+					rhs, err = t.body(x.Body.List)
+					origin = fmt.Sprintf("function literal #%d in %s", n, name)
+				}
+			}
+			if hit {
+				if err == nil {
+					occs = append(occs, occ{cand{rhs, origin}, named && n == it.Index})
+				}
+				n++
+			}
+			return true
+		})
+	}
+	if fd != nil {
+		scan(fd, true)
+	}
+	for _, d := range f.Decls {
+		if od, ok := d.(*ast.FuncDecl); ok && od != fd {
+			scan(od, false)
+		}
+	}
+	var first, rest []cand
+	seen := map[string]bool{}
+	for _, o := range occs {
+		if o.index {
+			first = append(first, o.c)
+			seen[o.c.rhs] = true
+		}
+	}
+	for _, o := range occs {
+		if !o.index && !seen[o.c.rhs] {
+			seen[o.c.rhs] = true
+			rest = append(rest, o.c)
+		}
+	}
+	all := append(first, rest...)
+	if len(all) == 0 {
+		return nil, fmt.Errorf("no %s in %s translates with binders %s", it.Kind, it.File, it.Params)
+	}
+	if len(all) > 8 {
+		all = all[:8]
+	}
+	return all, nil
+}
+
+// binderList returns the bound names of a Lean binder list in order.
+func binderList(params string) []string {
+	var res []string
+	for _, grp := range strings.Split(params, "(") {
+		grp = strings.TrimSpace(grp)
+		if i := strings.Index(grp, ":"); i >= 0 {
+			res = append(res, strings.Fields(grp[:i])...)
+		}
+	}
+	return res
+}
+
+// emitCandidates writes one definition per candidate and the tie `some candidate is the model's named piece`. For a
+// condition (ifcond / forcond) "is" admits the negated form as well: `if skip(x) { continue }; use(x)` and
+// `if keep(x) { use(x) }` with keep = !skip are the same code, and the translator reads conditions, not branches.
+func emitCandidates(out *strings.Builder, it *Item, cs []cand) {
+	polar := it.Kind == "ifcond" || it.Kind == "forcond"
+	if len(cs) == 1 && !polar {
+		fmt.Fprintf(out, "\n/-- %s (%s) -/\ndef %s %s : %s := %s\n", strings.ReplaceAll(cs[0].origin, "-/", "- /"), it.File, it.Lean, it.Params, it.Ret, cs[0].rhs)
+		if it.Eq != "" {
+			fmt.Fprintf(out, "theorem %s_eq : @%s = @%s := by\n  %s\n", it.Lean, it.Lean, it.Eq, tieTactic(it.Lean, it.Eq))
+		}
+		return
+	}
+	var names []string
+	for i, c := range cs {
+		n := it.Lean
+		if i > 0 {
+			n = fmt.Sprintf("%s_alt%d", it.Lean, i)
+		}
+		names = append(names, n)
+		fmt.Fprintf(out, "\n/-- %s (%s) -/\ndef %s %s : %s := %s\n", strings.ReplaceAll(c.origin, "-/", "- /"), it.File, n, it.Params, it.Ret, c.rhs)
+	}
+	if it.Eq == "" {
+		return
+	}
+	type alt struct{ stmt, tac string }
+	var as []alt
+	neg := fmt.Sprintf("(fun %s => !(%s %s))", it.Params, it.Eq, strings.Join(binderList(it.Params), " "))
+	for _, n := range names {
+		as = append(as, alt{fmt.Sprintf("(@%s = @%s)", n, it.Eq), tieTactic(n, it.Eq)})
+	}
+	if polar {
+		for _, n := range names {
+			as = append(as, alt{fmt.Sprintf("(@%s = %s)", n, neg), tieTactic(n, it.Eq)})
+		}
+	}
+	var disj, tacs []string
+	for i, a := range as {
+		disj = append(disj, a.stmt)
+		path := strings.Repeat("apply Or.inr; ", i)
+		if i < len(as)-1 {
+			path += "apply Or.inl; "
+		}
+		tacs = append(tacs, "("+path+a.tac+")")
+	}
+	fmt.Fprintf(out, "/-- one of the occurrences found in the source is the model's named piece (or, for a condition, its negation) -/\ntheorem %s_eq : %s := by\n  first\n  | %s\n", it.Lean, strings.Join(disj, " ∨ "), strings.Join(tacs, "\n  | "))
+}
+
+// structural reports that the source no longer has the shape the spec addresses (exit code 3): the regenerated tie
+// cannot be re-established for this run; bin/check then decides by the correspondence tie with the intensified search.
+func structural(err error) {
+	fmt.Fprintln(os.Stderr, "veriftranslator: structural:", err)
+	os.Exit(3)
 }
 
 // constString resolves an identifier naming a string constant declared in the same file (or a literal).
